@@ -170,5 +170,38 @@ def run(ctx):
         ctx.ok('R-WRAPPER', 'ioapi', 'src/PseudoNetCDF/cmaqfiles/_ioapi.py ioapi_base.applyAlongDimensions', norm(first[0])[:80])
     else:
         ctx.violation(Finding('R-WRAPPER', 'cmaqfiles/_ioapi.py', 'ioapi_base.applyAlongDimensions', wf.body[-1], 'the IOAPI wrapper does not delegate to the base method with the caller\'s arguments'))
+    # the wrapper leaves the time flags alone (a reduction along LAY/ROW/COL must not rewrite a variable that lacks those dimensions)
+    forced = [c for c in ast.walk(wf) if isinstance(c, ast.Call) and (dotted(c.func) or '').endswith('.updatetflag') and
+              ((kw(c, 'overwrite') is not None and not (isinstance(kw(c, 'overwrite'), ast.Constant) and kw(c, 'overwrite').value in (None, False))) or
+               (c.args and not (isinstance(c.args[0], ast.Constant) and c.args[0].value in (None, False))))]
+    dels = [st for st in iter_stmts(wf.body) if isinstance(st, ast.Delete) and "variables['TFLAG']" in norm(st)]
+    if forced or dels:
+        ctx.violation(Finding('R-UNTOUCHED', 'cmaqfiles/_ioapi.py', 'ioapi_base.applyAlongDimensions', api.stmt_of(forced[0]) if forced else dels[0], 'the wrapper regenerates TFLAG as a regular series after every call: a reduction along '
+                              'LAY/ROW/COL rewrites the time flags, a variable that lacks those dimensions (files with irregular time flags lose them)'), oid='wrapper:tflag')
+    else:
+        ctx.ok('R-UNTOUCHED', 'wrapper:tflag', 'src/PseudoNetCDF/cmaqfiles/_ioapi.py ioapi_base.applyAlongDimensions', 'no forced regeneration of TFLAG')
+    # ---- the string forms (reduce_dim / -r): for masked data the masked-array function is chosen before the plain numpy one
+    ctx.rule('R-MAFIRST', '_getfunc: for a reducer that is not an array method, masked arrays get numpy.ma.<name> before numpy.<name> is considered')
+    gfm = ctx.src.mod('core/_functions.py')
+    gf = gfm.func('_getfunc')
+    wgf = 'src/PseudoNetCDF/core/_functions.py _getfunc'
+    order = []
+    def chain(st):
+        while isinstance(st, ast.If):
+            order.append(norm(st.test))
+            st = st.orelse[0] if len(st.orelse) == 1 and isinstance(st.orelse[0], ast.If) else None
+    for st in iter_stmts(gf.body):
+        if isinstance(st, ast.If) and norm(st.test).startswith('hasattr(a, func)'):
+            chain(st)
+            break
+    ima = [i for i, t in enumerate(order) if 'MaskedArray' in t]
+    inp = [i for i, t in enumerate(order) if t == 'hasattr(np, func)']
+    if not ima or not inp:
+        ctx.undec('R-MAFIRST', '_getfunc', wgf, 'branch chain not recognised: %s' % order)
+    elif ima[0] < inp[0]:
+        ctx.ok('R-MAFIRST', '_getfunc', wgf, ' -> '.join(order))
+    else:
+        ctx.violation(Finding('R-MAFIRST', 'core/_functions.py', '_getfunc', gf.body[0], 'numpy.<name> is tried before numpy.ma.<name>: a reducer such as median on a masked variable is computed by the plain numpy function, '
+                              'which ignores the mask, so masked elements enter the result'))
     ctx.assumptions += ['numpy: ndarray/MaskedArray reducers accept axis= and keepdims=; numpy.apply_along_axis keeps the other axes in place',
                         'frozen table of mask-dropping numpy conversions (calibrated in the thorough tier)']
